@@ -45,12 +45,40 @@ fn follow_up<T: Elem + SatisfyTraits<Tr>, Tr: TrX + ?Sized, MT: MX>(x: &mut AnyV
 
 pub fn follow_up_pub<T: Elem + SatisfyTraits<Tr>, Tr: TrX + ?Sized, MT: MX>(x: &mut AnyVec<Tr, MT>, mx: &mut Vec<Mv>, then: u8, out: &mut Out) { follow_up::<T, Tr, MT>(x, mx, then, out) }
 
+/// `proto.clone_empty_in(Track)`: reports the element type, accepts and destroys a value
+fn hop<T: Elem + SatisfyTraits<Tr>, Tr: TrX + ?Sized, MP: MX>(proto: &AnyVec<Tr, MP>, out: &mut Out) {
+    match guarded(|| proto.clone_empty_in(Track)) {
+        Ok(mut c) => {
+            if c.element_typeid() != TypeId::of::<T>() || c.element_layout() != Layout::new::<T>() { out.fail(Class::Type, "empty-clone-layout", format!("second-hop clone_empty_in reports layout {:?}", c.element_layout())); }
+            let base = c.as_bytes().as_ptr() as usize;
+            if base % T::ALIGN != 0 { out.fail(Class::Mem, "storage-misaligned", format!("second-hop clone_empty_in: storage pointer {base:#x} is not aligned to {}", T::ALIGN)); }
+            else if c.downcast_ref::<T>().is_some() {
+                let r = guarded(|| { let v = T::fresh(); let id = v.id(); c.downcast_mut::<T>().unwrap().push(v); let b2 = c.downcast_ref::<T>().unwrap().as_ptr() as usize; (id, b2) });
+                match r {
+                    Ok((id, b2)) => {
+                        if b2 % T::ALIGN != 0 { out.fail(Class::Mem, "storage-misaligned", format!("second-hop clone_empty_in: storage pointer {b2:#x} after a push is not aligned to {}", T::ALIGN)); }
+                        else if T::SIZE != 0 && c.downcast_ref::<T>().unwrap().as_slice()[0].id() != id { out.fail(Class::Vec, "empty-clone-seq", "second-hop clone_empty_in does not hold the pushed value".into()); }
+                    }
+                    Err(Caught::Injected) => out.faulted = true,
+                    Err(Caught::Panic(m)) => out.fail(Class::Vec, "empty-clone-rejects", format!("second-hop clone_empty_in refused a value: {m}")),
+                }
+            } else { out.fail(Class::Type, "empty-clone-downcast", "second-hop clone_empty_in does not downcast to the element type".into()); }
+            let _ = guarded(move || drop(c));
+        }
+        Err(Caught::Injected) => out.faulted = true,
+        Err(Caught::Panic(m)) => out.fail(Class::Vec, "clone-empty-panicked", format!("second-hop clone_empty_in(Track) panicked: {m}")),
+    }
+}
+
 /// an empty clone must accept, destroy and (if cloneable) clone the same values
 fn exercise_empty<T: Elem + SatisfyTraits<Tr>, Tr: TrX + ?Sized, MS: MX, MT: MX>(src: &AnyVec<Tr, MS>, msrc: &[Mv], mut e: AnyVec<Tr, MT>, then: u8, out: &mut Out) {
     if e.len() != 0 || !e.is_empty() { out.fail(Class::Vec, "empty-clone-not-empty", format!("clone_empty* returned len {}", e.len())); }
     if e.element_typeid() != TypeId::of::<T>() { out.fail(Class::Type, "empty-clone-typeid", "clone_empty* reports a different element_typeid".into()); }
     if e.element_layout() != Layout::new::<T>() { out.fail(Class::Type, "empty-clone-layout", format!("clone_empty* reports layout {:?}", e.element_layout())); }
     if e.downcast_ref::<T>().is_none() { out.fail(Class::Type, "empty-clone-downcast", "empty clone does not downcast to the element type".into()); return; }
+    // second hop: an empty clone is itself a valid prototype - whatever the first target was, a vector derived from it asks its
+    // backend for storage with the element type's layout (the Track lifecycle oracle sees the request) and works
+    hop::<T, Tr, MT>(&e, out);
     if let Some(c) = MT::fixed_cap(T::SIZE) { if e.capacity() != c { out.fail(Class::Cap, "empty-clone-capacity", format!("capacity {} on {} (want {c})", e.capacity(), MT::name())); } }
     let mut me: Vec<Mv> = Vec::with_capacity(16);
     let room = |me: &Vec<Mv>, e: &AnyVec<Tr, MT>| MT::RESIZABLE || me.len() < e.capacity();
@@ -209,6 +237,19 @@ impl<T: Elem + SatisfyTraits<Tr>, M: MX, Tr: TrX + ?Sized> World<T, M, Tr> {
 
     pub fn do_clone_empty_in(&mut self, target: u8, then: u8, out: &mut Out) {
         let a = &self.a;
+        // inline targets with over-aligned elements (C12 known finding): the empty prototype is built and used as a prototype only
+        macro_rules! proto_only { ($mt:ty, $mk:expr) => {{
+            match guarded(|| a.clone_empty_in($mk)) {
+                Ok(e) => {
+                    if e.element_typeid() != TypeId::of::<T>() || e.element_layout() != Layout::new::<T>() { out.fail(Class::Type, "empty-clone-layout", format!("clone_empty_in({}) reports layout {:?}", <$mt as MX>::name(), e.element_layout())); }
+                    hop::<T, Tr, $mt>(&e, out);
+                    let _ = guarded(move || drop(e));
+                    out.outcome.push_str("proto-only");
+                }
+                Err(Caught::Injected) => out.faulted = true,
+                Err(Caught::Panic(m)) => out.fail(Class::Vec, "clone-empty-panicked", format!("clone_empty_in({}) panicked: {m}", <$mt as MX>::name())),
+            }
+        }} }
         macro_rules! go { ($mt:ty, $mk:expr) => {{
             match guarded(|| a.clone_empty_in($mk)) {
                 Ok(e) => { exercise_empty::<T, Tr, M, $mt>(&self.a, &self.ma, e, then, out); out.outcome.push_str("ok"); }
@@ -220,13 +261,13 @@ impl<T: Elem + SatisfyTraits<Tr>, M: MX, Tr: TrX + ?Sized> World<T, M, Tr> {
             #[cfg(feature = "alloc")]
             0 => go!(any_vec::mem::Heap, any_vec::mem::Heap),
             // inline storage is only byte-aligned by construction: use it for element alignment <= 8 (see C12)
-            1 => if T::ALIGN <= 8 { go!(Stack<512>, Stack::<512>) } else { out.outcome.push_str("skipped-align") },
-            2 => if T::ALIGN <= 8 { go!(StackN<2, 512>, StackN::<2, 512>) } else { out.outcome.push_str("skipped-align") },
+            1 => if T::ALIGN <= 8 { go!(Stack<512>, Stack::<512>) } else { proto_only!(Stack<512>, Stack::<512>) },
+            2 => if T::ALIGN <= 8 { go!(StackN<2, 512>, StackN::<2, 512>) } else { proto_only!(StackN<2, 512>, StackN::<2, 512>) },
             3 => go!(Track, Track),
             4 => go!(TrackFixed<2>, TrackFixed::<2>),
             // zero-capacity fixed backends: an empty vector always fits
-            5 => if T::ALIGN <= 8 { go!(Stack<0>, Stack::<0>) } else { out.outcome.push_str("skipped-align") },
-            6 => if T::ALIGN <= 8 { go!(StackN<0, 0>, StackN::<0, 0>) } else { out.outcome.push_str("skipped-align") },
+            5 => if T::ALIGN <= 8 { go!(Stack<0>, Stack::<0>) } else { proto_only!(Stack<0>, Stack::<0>) },
+            6 => if T::ALIGN <= 8 { go!(StackN<0, 0>, StackN::<0, 0>) } else { proto_only!(StackN<0, 0>, StackN::<0, 0>) },
             7 => go!(any_vec::mem::Empty, any_vec::mem::Empty),
             _ => out.outcome.push_str("skipped"),
         }
